@@ -1,14 +1,20 @@
 #!/bin/bash
-# seeded_regress.sh [name-prefix]: for every kept seeded change, apply it to /repo, run the checks its meta.json
-# names as detectors (quick tier), expect a VIOLATION from each, undo the change. Never leaves /repo dirty.
+# seeded_regress.sh [name-prefix]: for every kept seeded change, apply it to a scratch worktree of /repo's HEAD, run
+# the checks its meta.json names as detectors (quick tier) against that worktree (bin/trymutant_wt.sh), expect a
+# VIOLATION from each, undo the change. /repo's working tree and /verif/evidence are never touched.
+# BASELINE=1 also re-runs the repository's own suite with each change (slow).
 cd "$(dirname "$0")/.."
+wt=$(mktemp -d /tmp/verif-seedwt-XXXXXX); rmdir "$wt"
+git -C /repo worktree add -q --detach "$wt" HEAD || exit 2
+trap 'git -C /repo worktree remove --force "$wt"; git -C /repo worktree prune' EXIT
 fail=0
 for d in seeded/${1:-}*/; do
   n=$(basename $d)
   checks=$(python3 -c "import json;print(' '.join(json.load(open('$d/meta.json'))['detected_by']))")
-  res=$(bin/trymutant.sh "$PWD/$d/patch.diff" $checks 2>&1 | awk '{print $1":"$2}' | tr '\n' ' ')
+  git -C "$wt" apply "$PWD/$d/patch.diff" || { echo "$n -> patch does not apply"; fail=1; continue; }
+  res=$(NO_BASELINE=$([ -z "$BASELINE" ] && echo 1) bin/trymutant_wt.sh "$wt" $checks 2>&1 | awk '{print $1":"$2}' | tr '\n' ' ')
+  git -C "$wt" checkout -q -- . ; git -C "$wt" clean -fdq
   echo "$n -> $res"
   case "$res" in *MISSED*|*BROKEN*|*BASELINE*|*trymutant*) fail=1;; esac
 done
-git checkout -q evidence 2>/dev/null
 exit $fail
